@@ -49,7 +49,8 @@ DREG = 10                          # the deny region (highest priority used)
 def plan(tier, seed):
     # deny-sweep: the systematic sweeps of the 32-bit Thumb and ARM encoding spaces with EVERY register pointing at the edge of a no-access region
     sw = lambda rt, ra: ([{'k': 'deny-sweep', 'sub': 'sweepT32', 'slice': i, 'rep': rt} for i in range(0, 384, 8)] +
-                         [{'k': 'deny-sweep', 'sub': 'sweepA32', 'slice': i, 'rep': ra} for i in range(0, 8192, 64)])
+                         [{'k': 'deny-sweep', 'sub': 'sweepA32', 'slice': i, 'rep': ra} for i in range(0, 8192, 64)] +
+                         [{'k': 'deny-sweep', 'sub': 'sweep16', 'slice': i, 'of': 64, 'ctx': 0} for i in range(64)])          # and every 16-bit Thumb word
     if tier == 'quick':
         return [{'k': 'witness-pushw'}] + [{'k': 'translate'}] * 8000 + [{'k': 'deny'}] * 12000 + [{'k': 'align'}] * 4000 + [{'k': 'revoke'}] * 4000 + sw(48, 6)
     return [{'k': 'witness-pushw'}] + [{'k': 'translate'}] * 200000 + [{'k': 'deny'}] * 300000 + [{'k': 'align'}] * 80000 + [{'k': 'revoke'}] * 100000 + sw(512, 64) * 3
@@ -756,7 +757,7 @@ SW_DENY = G.DATA + 0x800          # [DATA+0x800, DATA+0x1000): no access for any
 def gen_deny_sweep(item, rng, tier):
     from scenarios import c18
     src = c18.gen_case({k: v for k, v in dict(item, k=item['sub']).items() if k != 'sub'}, rng, tier)['cores'][0]
-    thumb = src['force']['thumb']
+    thumb = src['force'].get('thumb', 1)
     cfg = {'arch_version': rng.choice([6, 7, 7]), 'have_security_ext': False, 'have_virt_ext': False, 'have_lpae': False, 'memory_system_architecture': 'PMSA',
            'number_of_mpu_regions': 12}
     cfg.update(G.impdef_switches(rng))
